@@ -129,6 +129,7 @@ type frag struct {
 	exprefAll   bool // all functions incl. by-expression ones
 	maxDepth    int
 	mismatch    int // percentage of deliberately mismatching choices
+	nav         bool // C18 navigational fragment: no object wildcard, no comparators, only length() of arrays/strings
 }
 
 var fragCore = frag{maxDepth: 5, mismatch: 20}
@@ -249,7 +250,11 @@ func wrapIfLoose(l []string, _ string) []string { return l }
 var cmpOps = []string{"==", "!=", "<", "<=", ">", ">="}
 
 func (g *exprGen) boolean(cur interface{}, depth int) []string {
-	switch g.n(10, "boolForm") {
+	form := g.n(10, "boolForm")
+	if g.f.nav && form >= 5 {
+		form = form - 5
+	}
+	switch form {
 	case 0, 1:
 		return join([]string{"!"}, g.operand(cur, depth))
 	case 2, 3, 4:
@@ -382,6 +387,20 @@ func firstElem(v interface{}) interface{} {
 
 // call generates a function call evaluated against cur.
 func (g *exprGen) call(cur interface{}, depth int) []string {
+	if g.f.nav {
+		var fits []cand
+		for _, c := range g.candidates(cur) {
+			switch c.val.(type) {
+			case []interface{}, string:
+				fits = append(fits, c)
+			}
+		}
+		if len(fits) == 0 {
+			return []string{"length", "(", "'abc'", ")"}
+		}
+		c := fits[g.n(len(fits), "navLen")]
+		return join([]string{"length", "("}, c.lex, []string{")"})
+	}
 	names := ref.FunctionNames
 	name := names[g.n(len(names), "fn")]
 	if g.pct(3, "unknownFn") {
@@ -657,6 +676,9 @@ func (g *exprGen) projStep(lex []string, rep interface{}, root interface{}, dept
 		return nil
 	}
 	roll := g.n(100, "projKind")
+	if g.f.nav && roll >= 30 && roll < 45 {
+		roll = 0
+	}
 	switch {
 	case roll < 30:
 		lex = append(lex, "[", "*", "]")
